@@ -184,6 +184,8 @@ def cases(rng, tier):
         yield gen_drain_restart(rng)
     for _ in range(fw.tier_scale(tier, 300, 3000)):
         yield gen_reentrant(rng)
+    for _ in range(fw.tier_scale(tier, 60, 600)):
+        yield C28.gen_long_run(rng)
 
 
 model_request = vc.model_request
